@@ -83,3 +83,6 @@ def spec(tier, seed):
 def replay_candidate(v, work, log):
     from .. import scenarios
     return scenarios.replay_for("C04", v, work, log)
+
+
+FALLBACK_SWEEP = ("patch", "replay_sweep_multi_hunk")
